@@ -1,13 +1,294 @@
-(* C11 — proofs about the client connection model. *)
+(* C11 — proofs about the client connection model (Conc/ClientConn.v), repaired code ([fixed = true]) unless
+   stated otherwise.  Invariants by induction over all label sequences. *)
 From Coq Require Import List Arith Bool Lia NArith.
 From TarsV Require Import Conc.ClientConn.
 Import ListNotations.
+Local Arguments Nat.ltb : simpl never.
+Local Arguments Nat.leb : simpl never.
 
-(* the pinned code: the stale send goroutine takes the request of the next call, writes it to the connection
-   the client has already closed, and its close marks the new, healthy connection closed *)
+Lemma al_dead x m : dead (add_late x m) = dead x. Proof. unfold add_late. now destruct (dead x) eqn:E. Qed.
+Lemma al_sp x m : sp (add_late x m) = sp x. Proof. unfold add_late. now destruct (dead x). Qed.
+Lemma al_rp x m : rp (add_late x m) = rp x. Proof. unfold add_late. now destruct (dead x). Qed.
+Lemma al_peerc x m : peerc (add_late x m) = peerc x. Proof. unfold add_late. now destruct (dead x). Qed.
+Lemma al_done x m : done (add_late x m) = done x. Proof. unfold add_late. now destruct (dead x). Qed.
+Lemma al_got x m : got (add_late x m) = got x. Proof. unfold add_late. now destruct (dead x). Qed.
+
+Definition Inv1 (s : st) : Prop :=
+  match cur s with
+  | None => closedF s = true /\ ngen s = 0
+  | Some c => closedF s = dead (gens s c) /\ c < ngen s
+  end /\
+  (forall g, g < ngen s -> cur s <> Some g -> dead (gens s g) = true).
+
+Ltac dstep H :=
+  repeat match type of H with
+  | context [match ?x with _ => _ end] => destruct x eqn:?; try discriminate H
+  end; try (injection H as <-).
+
+Ltac eqs := repeat match goal with
+       | |- context [Nat.eqb ?a ?b] => destruct (Nat.eqb_spec a b); subst; cbn in *
+       | H : context [Nat.eqb ?a ?b] |- _ => destruct (Nat.eqb_spec a b); subst; cbn in *
+       end.
+
+Lemma Inv1_step s l s' : Inv1 s -> step true s l = Some s' -> Inv1 s'.
+Proof.
+  intros (HA & HC) H. destruct l; cbn [step] in H.
+  all: dstep H.
+  all: unfold Inv1, do_close, w_sp, w_gen, w_gens, is_cur in *; cbn in *.
+  all: destruct (cur s) as [c|] eqn:EC; cbn in *.
+  all: try (destruct HA as [HA1 HA2]).
+  all: repeat split; intros; cbn in *.
+  all: unfold upd in *; cbn in *; rewrite ?al_dead in *.
+  all: eqs.
+  all: try lia; try congruence; eauto.
+  all: try (apply HC; [lia|congruence]).
+  destruct (Nat.eq_dec g c); subst; [congruence|apply HC; [lia|congruence]].
+Qed.
+
+Lemma memn_In x l : memn x l = true <-> In x l.
+Proof. unfold memn. rewrite existsb_exists. split. - intros (y & Hy & E). apply Nat.eqb_eq in E. now subst. - intros H. exists x. split; auto. apply Nat.eqb_refl. Qed.
+Lemma al_late x m : late (add_late x m) = if dead x then late x ++ [m] else late x.
+Proof. unfold add_late. now destruct (dead x). Qed.
+
+Definition holds (p : spc) : option nat :=
+  match p with SCheck m | SHook m | SWrite m | SRequeue m | SFailPush m => Some m | _ => None end.
+Definition committed (p : spc) : option nat := match p with SHook m | SWrite m => Some m | _ => None end.
+
+Definition Inv2 (s : st) : Prop :=
+  (forall g, dead (gens s g) = false -> late (gens s g) = []) /\
+  (forall g m, committed (sp (gens s g)) = Some m -> ~ In m (late (gens s g))) /\
+  (forall g m b, In (g, m, b) (atts s) -> ~ In m (late (gens s g))) /\
+  (forall m, In m (sendQ s) -> In m (hist s)) /\
+  (forall m, In m (failQ s) -> In m (hist s)) /\
+  (forall g m, holds (sp (gens s g)) = Some m -> In m (hist s)) /\
+  (forall g m b, In (g, m, b) (atts s) -> In m (hist s)).
+
+Lemma Inv2_step s l s' : Inv1 s -> Inv2 s -> step true s l = Some s' -> Inv2 s'.
+Proof.
+  intros (HA & HC) (HD & HE & HF & HQ & HFQ & HH & HAH) H. destruct l; cbn [step] in H.
+  2: { (* LEnq *)
+    destruct (memn m (lenq s) && negb (memn m (hist s))) eqn:E; [|discriminate]. injection H as <-.
+    apply andb_prop in E. destruct E as [_ E]. apply negb_true_iff in E.
+    assert (Hm : ~ In m (hist s)). { intros X. apply memn_In in X. congruence. }
+    unfold Inv2; cbn. repeat split; intros; rewrite ?al_dead, ?al_sp, ?al_late in *.
+    - rewrite H. auto.
+    - destruct (dead (gens s g)); [|eauto]. rewrite in_app_iff. cbn. intros [X|[X|[]]]; [eapply HE; eauto|]. subst. apply Hm. apply (HH g). unfold committed in H. destruct (sp (gens s g)); try discriminate; cbn; congruence.
+    - destruct (dead (gens s g)); [|eauto]. rewrite in_app_iff. cbn. intros [X|[X|[]]]; [eapply HF; eauto|]. subst. apply Hm. eapply HAH; eauto.
+    - rewrite in_app_iff in *. cbn in *. intuition.
+    - rewrite in_app_iff. left. eauto.
+    - rewrite in_app_iff. left. eauto.
+    - rewrite in_app_iff. left. eauto. }
+  all: dstep H.
+  all: unfold Inv2, do_close, w_sp, w_gen, w_gens, is_cur, isCurrent in *; cbn in *.
+  all: repeat split; intros; cbn in *.
+  all: unfold upd in *; cbn in *; rewrite ?al_dead, ?al_sp, ?al_late in *.
+  all: eqs.
+  all: eauto.
+  all: try solve [ discriminate | congruence | rewrite ?in_app_iff in *; cbn in *; intuition (subst; try congruence; eauto) ].
+  all: repeat match goal with H : Some _ = Some _ |- _ => injection H as H; subst end.
+  all: repeat match goal with
+       | E : failQ _ = _, H : In _ (failQ _) |- _ => rewrite E in H; cbn in H
+       | E : sendQ _ = _, H : In _ (sendQ _) |- _ => rewrite E in H; cbn in H
+       end.
+  all: try solve [ discriminate | congruence | rewrite ?in_app_iff in *; cbn in *; intuition (subst; try congruence; eauto) ].
+  all: try match goal with E : sp (gens _ ?g) = _ |- _ => solve [apply (HH g); rewrite E; reflexivity | apply (HE g); rewrite E; reflexivity] end.
+  all: try (match goal with H : In _ (_ ++ [_]) |- _ => apply in_app_or in H; destruct H as [H|[H|[]]]; [solve [eauto | eapply HF; eauto] | inversion H; subst] end).
+  all: try (match goal with H : _ = _ \/ False |- _ => destruct H as [H|[]]; subst end).
+  all: try match goal with E : sp (gens _ ?g) = _ |- _ => solve [apply (HH g); rewrite E; reflexivity | apply (HE g); rewrite E; reflexivity] end.
+  (* LSCheck, current: the connection is not known dead, so nothing is late for it *)
+  apply andb_prop in Heqb. destruct Heqb as [F C]. apply negb_true_iff in F. unfold is_cur in C.
+  destruct (cur s) as [c|]; [|discriminate]. apply Nat.eqb_eq in C. subst c. destruct HA as [HA _].
+  rewrite HD by congruence. intros [].
+Qed.
+
+
+(* generations not yet dialled are untouched *)
+Definition Inv0 (s : st) : Prop := forall g, ngen s <= g -> gens s g = gen0.
+
+Lemma add_late_gen0 m : add_late gen0 m = gen0. Proof. reflexivity. Qed.
+
+Lemma Inv0_step s l s' : Inv1 s -> Inv0 s -> step true s l = Some s' -> Inv0 s'.
+Proof.
+  intros [HA _] HN H. destruct l; cbn [step] in H.
+  all: dstep H.
+  all: unfold Inv0, do_close, w_sp, w_gen, w_gens, is_cur in *; cbn in *; intros g0 Hg0.
+  all: unfold upd; cbn.
+  all: try (rewrite HN by lia; reflexivity).
+  all: try match goal with |- context [Nat.eqb ?a ?b] => destruct (Nat.eqb_spec a b); subst; cbn in * end.
+  all: try (apply HN; lia).
+  all: try (match goal with E : sp (gens _ ?g) = _ |- _ => rewrite (HN g) in E by lia; discriminate E end).
+  all: try (match goal with E : rp (gens _ ?g) = _ |- _ => rewrite (HN g) in E by lia; discriminate E end).
+  all: try (match goal with E : (?g <? ngen _) = true |- _ => apply Nat.ltb_lt in E; lia end).
+  all: try (match goal with E : (?g <? ngen _) && _ = true |- _ => apply andb_prop in E; destruct E as [E _]; try (apply andb_prop in E; destruct E as [E _]); apply Nat.ltb_lt in E; lia end).
+  all: try reflexivity.
+  all: try (match goal with E : cur _ = Some _ |- _ => rewrite E in HA; lia end).
+  all: try lia.
+  apply andb_prop in Heqb. destruct Heqb as [E _]. apply andb_prop in E. destruct E as [E _]. apply Nat.ltb_lt in E. lia.
+Qed.
+
+(* ------------------------------------------------------------------------------------------------ *)
+Definition Inv (s : st) : Prop := Inv1 s /\ Inv2 s /\ Inv0 s.
+
+Lemma Inv_init : Inv init.
+Proof.
+  unfold Inv, Inv1, Inv2, Inv0, init; cbn. repeat split; intros; try lia; try contradiction; try discriminate; auto.
+Qed.
+
+Lemma Inv_step s l s' : Inv s -> step true s l = Some s' -> Inv s'.
+Proof.
+  intros (H1 & H2 & H0) H. split; [|split].
+  - eapply Inv1_step; eauto. - eapply Inv2_step; eauto. - eapply Inv0_step; eauto.
+Qed.
+
+Lemma run_app f ls1 : forall ls2 s, run f s (ls1 ++ ls2) = match run f s ls1 with Some s1 => run f s1 ls2 | None => None end.
+Proof. induction ls1 as [|l r IH]; cbn; intros; auto. destruct (step f s l); auto. Qed.
+
+Lemma Inv_run ls : forall s s', Inv s -> run true s ls = Some s' -> Inv s'.
+Proof.
+  induction ls as [|l r IH]; cbn; intros s s' HI H. { now injection H as <-. }
+  destruct (step true s l) eqn:E; [|discriminate]. eapply IH; [eapply Inv_step; eauto|eauto].
+Qed.
+
+Lemma reach_Inv ls s : run true init ls = Some s -> Inv s.
+Proof. apply Inv_run, Inv_init. Qed.
+
+(* known dead is stable, and so is being late for a generation *)
+Lemma dead_mono_step s l s' g : Inv0 s -> step true s l = Some s' -> dead (gens s g) = true -> dead (gens s' g) = true.
+Proof.
+  intros HN H D. destruct l; cbn [step] in H.
+  all: dstep H.
+  all: unfold do_close, w_sp, w_gen, w_gens in *; cbn in *; unfold upd; cbn; rewrite ?al_dead.
+  all: repeat match goal with |- context [Nat.eqb ?a ?b] => destruct (Nat.eqb_spec a b); subst; cbn in * end.
+  all: auto.
+  rewrite (HN (ngen s)) in D by lia. discriminate D.
+Qed.
+
+Lemma late_mono_step s l s' g m : Inv0 s -> step true s l = Some s' -> In m (late (gens s g)) -> In m (late (gens s' g)).
+Proof.
+  intros HN H D. destruct l; cbn [step] in H.
+  all: dstep H.
+  all: unfold do_close, w_sp, w_gen, w_gens in *; cbn in *; unfold upd; cbn; rewrite ?al_late.
+  all: repeat match goal with |- context [Nat.eqb ?a ?b] => destruct (Nat.eqb_spec a b); subst; cbn in * end.
+  all: auto.
+  all: try (destruct (dead (gens s g)); [rewrite in_app_iff; auto|auto]).
+  rewrite (HN (ngen s)) in D by lia. destruct D.
+Qed.
+
+Lemma mono_run ls : forall s s' g, Inv s -> run true s ls = Some s' ->
+  (dead (gens s g) = true -> dead (gens s' g) = true) /\ (forall m, In m (late (gens s g)) -> In m (late (gens s' g))).
+Proof.
+  induction ls as [|l r IH]; cbn; intros s s' g HI H. { injection H as <-. auto. }
+  destruct (step true s l) eqn:E; [|discriminate].
+  destruct (IH s0 s' g (Inv_step _ _ _ HI E) H) as [A B]. destruct HI as (_ & _ & HN). split.
+  - intros D. apply A. eapply dead_mono_step; eauto.
+  - intros m D. apply B. eapply late_mono_step; eauto.
+Qed.
+
+
+(* ------------------------------------------------------------------------------------------------ *)
+(* the theorems *)
+
+(* the closed flag says exactly whether the CURRENT connection is known dead *)
+Theorem closed_flag_is_current ls s : run true init ls = Some s ->
+  match cur s with
+  | Some c => closedF s = dead (gens s c) /\ c < ngen s
+  | None => closedF s = true /\ ngen s = 0
+  end.
+Proof. intros H. destruct (reach_Inv _ _ H) as ((HA & _) & _). exact HA. Qed.
+
+(* every generation other than the current one is known dead: a connection is only replaced after its loss *)
+Theorem only_current_alive ls s g : run true init ls = Some s -> g < ngen s -> dead (gens s g) = false -> cur s = Some g.
+Proof.
+  intros H L D. destruct (reach_Inv _ _ H) as ((_ & HC) & _).
+  destruct (cur s) as [c|] eqn:E.
+  - destruct (Nat.eq_dec c g); [now subst|]. rewrite HC in D; [discriminate|auto|congruence].
+  - rewrite HC in D; [discriminate|auto|congruence].
+Qed.
+
+(* steps by which a goroutine bound to generation g gives that generation up *)
+Definition closes (l : label) : option nat :=
+  match l with LRClose g | LSIdleClose g | LSFailClose g => Some g | _ => None end.
+
+(* the loss of generation g does not touch the closed flag, the current connection or its state
+   when g is not the current connection (any state, reachable or not) *)
+Theorem close_is_local s l s' g c : step true s l = Some s' -> closes l = Some g -> cur s = Some c -> c <> g ->
+  closedF s' = closedF s /\ cur s' = Some c /\ dead (gens s' c) = dead (gens s c) /\ sp (gens s' c) = sp (gens s c).
+Proof.
+  intros H CL EC NE. destruct l; cbn in CL; try discriminate; injection CL as ->; cbn [step] in H.
+  all: dstep H.
+  all: unfold do_close, w_sp, w_gen, w_gens, is_cur; cbn; rewrite EC; unfold upd; cbn.
+  all: repeat match goal with |- context [Nat.eqb ?a ?b] => destruct (Nat.eqb_spec a b); subst; cbn in * end.
+  all: try congruence; auto.
+Qed.
+
+(* ... hence a healthy current connection is never treated as closed because an earlier one was lost *)
+Corollary healthy_not_closed ls s c : run true init ls = Some s -> cur s = Some c -> dead (gens s c) = false -> closedF s = false.
+Proof. intros H E D. pose proof (closed_flag_is_current _ _ H) as X. rewrite E in X. destruct X as [X _]. congruence. Qed.
+
+(* no write attempt on generation g ever carries a request that was enqueued while g was known dead *)
+Theorem no_late_write ls s g m b : run true init ls = Some s -> In (g, m, b) (atts s) -> ~ In m (late (gens s g)).
+Proof. intros H. destruct (reach_Inv _ _ H) as (_ & (_ & _ & HF & _) & _). apply HF. Qed.
+
+(* the same in terms of the history alone: once g is known dead, a request enqueued later is never written to g *)
+Theorem no_write_after_known_dead l1 l2 m g s1 s : run true init l1 = Some s1 -> dead (gens s1 g) = true ->
+  run true s1 (LEnq m :: l2) = Some s -> forall b, ~ In (g, m, b) (atts s).
+Proof.
+  intros H1 D H2 b HIn. pose proof (reach_Inv _ _ H1) as I1.
+  cbn [run] in H2. destruct (step true s1 (LEnq m)) as [s2|] eqn:E; [|discriminate].
+  assert (L2 : In m (late (gens s2 g))).
+  { cbn [step] in E. destruct (memn m (lenq s1) && negb (memn m (hist s1))); [|discriminate]. injection E as <-.
+    cbn. rewrite al_late, D, in_app_iff. right. now left. }
+  destruct (mono_run l2 s2 s g (Inv_step _ _ _ I1 E) H2) as [_ M].
+  assert (R : run true init (l1 ++ LEnq m :: l2) = Some s).
+  { rewrite run_app, H1. cbn [run]. now rewrite E. }
+  eapply no_late_write; eauto.
+Qed.
+
+(* a send goroutine that is about to write (hook position) or writing holds a request that is not late for its generation *)
+Theorem committed_not_late ls s g m : run true init ls = Some s -> committed (sp (gens s g)) = Some m -> ~ In m (late (gens s g)).
+Proof. intros H. destruct (reach_Inv _ _ H) as (_ & (_ & HE & _) & _). apply HE. Qed.
+
+(* ------------------------------------------------------------------------------------------------ *)
+(* the pinned code ([fixed = false]) violates all three; the schedule is the one observed on the real client:
+   the send goroutine of the closed connection 0 takes the request of the next call, writes it to the dead
+   connection, its close marks the healthy connection 1 closed, and the send goroutine of 1 leaves at its next tick *)
 Definition sched_defect : list label :=
   [LLogEnq 0; LReconnect; LEnq 0; LSTop 0; LSPoll 0; LSBlkQueue 0; LSHook 0; LSWriteOk 0; LSTop 0; LSPoll 0;
-   LLogPClose 0; LPeerClose 0; LRClose 0; LRSignal 0;
+   LLogPClose 0; LPeerClose 0; LRClose 0; LRSignal 0; LLogObs 0;
    LLogEnq 1; LReconnect; LEnq 1; LSTop 1; LSPoll 1;
    LSBlkQueue 0; LSHook 0; LSWriteErr 0; LSFailPush 0; LSFailClose 0;
    LSBlkTick 1; LSTick 1].
+
+Lemma pinned_refuted : exists s, run false init sched_defect = Some s /\
+  In (0, 1, true) (atts s) /\ In 1 (late (gens s 0)) /\                       (* written to the connection known dead *)
+  cur s = Some 1 /\ dead (gens s 1) = false /\ peerc (gens s 1) = false /\ closedF s = true /\   (* healthy, treated as closed *)
+  failQ s = [1] /\ sp (gens s 1) = SExit /\ sp (gens s 0) = SExit /\ got (gens s 1) = [] /\       (* request 1 waits for another call *)
+  c11_accepts (log s) = false.                                        (* and the specification machine rejects the log *)
+Proof. eexists. split; [vm_compute; reflexivity|]. vm_compute. repeat split; auto. Qed.
+
+(* the repaired code under the corresponding schedule: the stale goroutine hands the request over *)
+Definition sched_repaired : list label :=
+  [LLogEnq 0; LReconnect; LEnq 0; LSTop 0; LSPoll 0; LSBlkQueue 0; LSCheck 0; LSHook 0; LSWriteOk 0; LSTop 0; LSPoll 0;
+   LLogPClose 0; LPeerClose 0; LRClose 0; LRSignal 0; LLogObs 0;
+   LLogEnq 1; LReconnect; LEnq 1; LSTop 1; LSPoll 1;
+   LSBlkQueue 0; LSCheck 0; LSRequeue 0;
+   LSBlkFail 1; LSCheck 1; LSHook 1; LSWriteOk 1].
+
+Lemma repaired_example : exists s, run true init sched_repaired = Some s /\
+  atts s = [(0, 0, false); (1, 1, false)] /\ got (gens s 1) = [1] /\ closedF s = false /\ cur s = Some 1 /\
+  sp (gens s 0) = SExit /\ failQ s = [] /\ sendQ s = [] /\ c11_accepts (log s) = true.
+Proof. eexists. split; [vm_compute; reflexivity|]. vm_compute. repeat split; auto. Qed.
+
+(* the pinned schedule is not a behaviour of the repaired code *)
+Lemma repaired_rejects_defect : run true init sched_defect = None.
+Proof. vm_compute. reflexivity. Qed.
+
+(* the literal reading "no write attempt while the generation is known dead" fails for any client that does
+   not hold a lock across test and write: the connection is lost between isCurrent and conn.Write *)
+Definition sched_window : list label :=
+  [LLogEnq 0; LReconnect; LEnq 0; LSTop 0; LSPoll 0; LSBlkQueue 0; LSCheck 0; LLogPClose 0; LPeerClose 0; LRClose 0;
+   LSHook 0; LSWriteErr 0].
+
+Lemma literal_no_write_to_dead_refuted : exists s, run true init sched_window = Some s /\ In (0, 0, true) (atts s) /\ late (gens s 0) = [].
+Proof. eexists. split; [vm_compute; reflexivity|]. cbn. split; auto. Qed.
+
